@@ -11,7 +11,7 @@ import (
 
 // C08 — outgoing message ids are unique, increasing and client-typed.
 func init() {
-	register("C08", []string{"proto", "mtproto"}, func(c *engine.Ctx) {
+	register("C08", []string{"proto", "mtproto", "rpc"}, func(c *engine.Ctx) {
 		c.Explain("C08: (R1, difference bound) every store to MessageIDGen.nano in New advances it by at least messageIDModulo: form old+c gives c, a fresh reading stored under fresh >= old+c' gives c' (> gives c'+1); newMessageID clears the low two bits, so a smaller step can repeat an id. (R2) all accesses to nano are under g.mux. (R3) newMessageID masks the fraction with -messageIDModulo before adding the yield; NewMessageIDNano maps client→0, server-response→1, from-server→3 (all < modulo) and MessageID.Type inverts it (evaluated for every type/residue). (R4) nextMsgSeq draws id and seq under reqMux; evaluated on both paths: seq = 2n for service, 2n+1 and n←n+1 for content. (R5) the id source is called only from nextMsgSeq inside mtproto.")
 		c.NotCover("closeness of the encoded time to the clock reading")
 		c08R1(c)
@@ -305,4 +305,151 @@ func c08R4(c *engine.Ctx) {
 		}
 	}
 	c.Floor("C08.R5", 2, m)
+	// R6 who-may-write the content counter: "twice the number of earlier
+	// content messages" holds for the whole life of the connection only if
+	// nothing but nextMsgSeq ever stores it (a reset on key regeneration
+	// restarts the numbers on a live connection)
+	w := 0
+	for _, f := range allFunctions(c, c.SSA["mtproto"]) {
+		for _, g := range engine.WithAnon(f) {
+			engine.Instrs(g, func(i ssa.Instruction) {
+				st, ok := i.(*ssa.Store)
+				if !ok {
+					return
+				}
+				fa, isFA := st.Addr.(*ssa.FieldAddr)
+				if !isFA || engine.FieldNameOf(fa) != "sentContentMessages" {
+					return
+				}
+				w++
+				c.Check(g == fn, "C08.R6", "sentContentMessages-writer:"+engine.FuncID(g)+"#"+ordinal(g, st), st.Pos(), "the content counter may be changed only by nextMsgSeq")
+			})
+		}
+	}
+	c.Floor("C08.R6", 1, w)
+	// R7 the numbers drawn are the numbers sent: every caller hands the
+	// (id, seq) pair of one nextMsgSeq call to newEncryptedMessage, and every
+	// branch of newEncryptedMessage puts them into the frame header (C04.R6)
+	nem := c.Func("mtproto", "Conn.newEncryptedMessage")
+	s := 0
+	for _, f := range allFunctions(c, c.SSA["mtproto"]) {
+		for _, g := range engine.WithAnon(f) {
+			for _, call := range engine.Calls(g) {
+				if nem == nil || call.Common().StaticCallee() != nem {
+					continue
+				}
+				s++
+				a := engine.Args(call.Common())
+				id, isI := engine.Unwrap(a[1]).(*ssa.Extract)
+				sq, isS := engine.Unwrap(a[2]).(*ssa.Extract)
+				ok := isI && isS && id.Tuple == sq.Tuple && id.Index == 0 && sq.Index == 1
+				if ok {
+					src := engine.CallOf(id)
+					ok = src != nil && src.Common().StaticCallee() == fn
+				}
+				// or the function's own parameters, forwarded by a caller that is checked the same way
+				if !ok && len(g.Params) >= 3 {
+					ok = c08Forwarded(c, g, fn, a[1], a[2])
+				}
+				c.Check(ok, "C08.R7", "frame-gets-drawn-pair:"+engine.FuncID(g)+"#"+ordinalCall(g, call), call.Pos(), "newEncryptedMessage must receive the message id and sequence number of one nextMsgSeq draw")
+			}
+		}
+	}
+	c.Floor("C08.R7", 1, s)
+	c04R6As(c, "C08.R7")
+}
+
+// c08Forwarded: id and seq are parameters of g, and every static caller of g
+// in mtproto passes the two results of one nextMsgSeq call for them.
+func c08Forwarded(c *engine.Ctx, g, next *ssa.Function, id, seq ssa.Value) bool {
+	pi, pj := -1, -1
+	for k, p := range g.Params {
+		if ssa.Value(p) == engine.Unwrap(id) {
+			pi = k
+		}
+		if ssa.Value(p) == engine.Unwrap(seq) {
+			pj = k
+		}
+	}
+	if pi < 0 || pj < 0 {
+		return false
+	}
+	callers := 0
+	for _, f := range allFunctions(c, c.SSA["mtproto"]) {
+		for _, h := range engine.WithAnon(f) {
+			for _, call := range engine.Calls(h) {
+				if call.Common().StaticCallee() != g {
+					continue
+				}
+				callers++
+				a := engine.Args(call.Common())
+				x, okX := engine.Unwrap(a[pi]).(*ssa.Extract)
+				y, okY := engine.Unwrap(a[pj]).(*ssa.Extract)
+				if okX && okY && x.Tuple == y.Tuple && x.Index == 0 && y.Index == 1 {
+					if src := engine.CallOf(x); src != nil && src.Common().StaticCallee() == next {
+						continue
+					}
+					return false
+				}
+				// the caller forwards its own parameters
+				if h == g || !c08Forwarded(c, h, next, a[pi], a[pj]) {
+					return false
+				}
+			}
+		}
+	}
+	if callers > 0 {
+		return true
+	}
+	// no static caller: g is handed to the rpc engine as its send function.
+	// The pair then travels in rpc.Request: every Request built in mtproto
+	// takes MsgID and SeqNo from one nextMsgSeq draw, and the engine calls its
+	// send function with (req.MsgID, req.SeqNo) of one request.
+	if engine.FuncID(g) != "(*mtproto.Conn).writeContentMessage" || pi != 2 || pj != 3 {
+		return false
+	}
+	reqs := 0
+	okReq := true
+	for _, f := range allFunctions(c, c.SSA["mtproto"]) {
+		for _, h := range engine.WithAnon(f) {
+			engine.Instrs(h, func(i ssa.Instruction) {
+				al, ok := i.(*ssa.Alloc)
+				if !ok || !strings.HasSuffix(al.Type().String(), "rpc.Request") || !strings.Contains(al.Comment, "complit") && al.Comment != "req" {
+					return
+				}
+				id, sq := engine.StructFieldValue(al, "MsgID"), engine.StructFieldValue(al, "SeqNo")
+				if id == nil && sq == nil {
+					return // not a literal (a parameter copy)
+				}
+				reqs++
+				x, okX := engine.Unwrap(id).(*ssa.Extract)
+				y, okY := engine.Unwrap(sq).(*ssa.Extract)
+				if !okX || !okY || x.Tuple != y.Tuple || x.Index != 0 || y.Index != 1 {
+					okReq = false
+					return
+				}
+				if src := engine.CallOf(x); src == nil || src.Common().StaticCallee() != next {
+					okReq = false
+				}
+			})
+		}
+	}
+	sends := 0
+	okSend := true
+	for _, f := range allFunctions(c, c.SSA["rpc"]) {
+		for _, h := range engine.WithAnon(f) {
+			for _, call := range engine.Calls(h) {
+				cc := call.Common()
+				if cc.StaticCallee() != nil || cc.IsInvoke() || !strings.HasSuffix(descCell(cc.Value), "e.send") {
+					continue
+				}
+				sends++
+				d1, d2 := descCell(cc.Args[1]), descCell(cc.Args[2])
+				if !strings.HasSuffix(d1, ".MsgID") || !strings.HasSuffix(d2, ".SeqNo") || strings.TrimSuffix(d1, ".MsgID") != strings.TrimSuffix(d2, ".SeqNo") {
+					okSend = false
+				}
+			}
+		}
+	}
+	return reqs > 0 && okReq && sends > 0 && okSend
 }
